@@ -38,6 +38,7 @@ type vCrashExpect struct {
 	mustHave  int       // appends that had returned before the crash: offsets [mustFrom, mustHave) must be present
 	mustFrom  int       // (retention may have been removing a prefix)
 	preHW     int64     // HW before the crash
+	ckptHWp1  int64     // 1 + the HW of the last checkpoint that completed before the crash (0: none did)
 	gaps      bool      // compaction workload: offsets may have gaps (only order/content checked)
 	keepAll   []bool    // compaction workload: messages that must survive
 }
@@ -55,6 +56,7 @@ func vRecoverAndCheck(dir string, opts Options, e vCrashExpect) {
 	vAssert(newest >= int64(e.mustHave)-1, "every completed append is accounted for by NewestOffset")
 	vAssert(newest < int64(len(e.attempted)), "NewestOffset does not exceed what was ever appended")
 	vAssert(l.HighWatermark() <= e.preHW, "recovered HW is not above the HW before the crash")
+	vAssert(l.HighWatermark() >= e.ckptHWp1-1, "a high watermark whose checkpoint completed before the crash is not lost")
 	// full read-back
 	seen := make([]bool, len(e.attempted))
 	buf := make([]byte, 28)
@@ -208,6 +210,8 @@ func VerifC05Append() {
 				e.preHW = int64(i)
 				vRecord("preHW", i)
 				vAssert(l.(*commitLog).checkpointHW() == nil, "HW checkpoint succeeds")
+				e.ckptHWp1 = int64(i) + 1
+				vRecord("ckptHWp1", i+1)
 			}
 		}
 	})
@@ -223,6 +227,9 @@ func VerifC05Append() {
 		e.preHW = int64(vRecorded("preHW"))
 		if _, ok := vrep.Extra["rec.preHW"]; !ok {
 			e.preHW = -1
+		}
+		if _, ok := vrep.Extra["rec.ckptHWp1"]; ok {
+			e.ckptHWp1 = int64(vRecorded("ckptHWp1"))
 		}
 	}
 	vRecoverAndCheck(dir, opts, e)
@@ -294,6 +301,7 @@ func VerifC05Truncate() {
 	l.SetHighWatermark(t - 1)
 	vAssert(l.(*commitLog).checkpointHW() == nil, "HW checkpoint succeeds")
 	e.preHW = t - 1
+	e.ckptHWp1 = t
 	e.mustHave = int(t)
 	k := vNondetInt("crash-after-effect")
 	vAssume(k >= 1)
@@ -441,6 +449,7 @@ func VerifC05CrashInRecovery() {
 				l.SetHighWatermark(int64(i))
 				e.preHW = int64(i)
 				vAssert(l.(*commitLog).checkpointHW() == nil, "HW checkpoint succeeds")
+				e.ckptHWp1 = int64(i) + 1
 			}
 		}
 	})
@@ -493,6 +502,7 @@ func vDoubleCrash(workload int) {
 		l.SetHighWatermark(t - 1)
 		vAssert(l.(*commitLog).checkpointHW() == nil, "HW checkpoint succeeds")
 		e.preHW = t - 1
+		e.ckptHWp1 = t
 		e.mustHave = int(t)
 	case 2:
 		segs := l.(*commitLog).Segments()
